@@ -422,6 +422,8 @@ class Extractor:
             if isinstance(c, bool):
                 return args[1] if c else args[2]
             return ("select", c, lift(args[1]), lift(args[2]))
+        if last in ("eq", "ne", "lt", "le", "gt", "ge") and fn.startswith("ctx") and len(args) == 2:
+            return ("cmp", {"eq": "==", "ne": "!=", "lt": "<", "le": "<=", "gt": ">", "ge": ">="}[last], lift(args[0]), lift(args[1]))
         if last == "constant" and fn.startswith("ctx"):
             v = args[0]
             if _num(v):
